@@ -8,6 +8,7 @@ from ..engine import finite, flow
 from ..engine.mutate import Mutant, Variant, in_function, replace_once
 from ..engine.runner import Rule
 from ..engine.source import AnalysisError
+from ..engine.sqlfront import all_where_clauses, split_conjuncts
 from .common import callee_name, calls_in
 
 EXPLANATION = (
@@ -67,7 +68,31 @@ def rule_read_set(ctx):
     ctx.check({("UPDATE", "step", "_implied_need", None), ("UPDATE", "step", "_tail_time", None)} <= w, "scheduler.UPDATE_CHECK_AFTER", "writes _implied_need and _tail_time", f"{sorted(w, key=str)[:4]}", "both")
     rt = ctx.prog.func("workflow.Workflow.reconcile_targets")
     src = _norm(ast.unparse(rt.node))
-    ctx.check("UPDATE step SET _check_after = 1 WHERE _implied_need = {Need.TARGET.value}" in src, rt.fq, "stale TARGET values are flagged", "targets of a previous run stay elevated", "flagged")
+    # every step whose cached need is TARGET is re-examined when the target set may have changed: the statement that
+    # flags them has that single conjunct (exact targets elevate OPTIONAL and DEFAULT steps alike)
+    stale = []
+    for st_ in ctx.sql.stmts_in(rt.fq):
+        if st_.kind == "UPDATE" and ("UPDATE", "step", "_check_after", None) in st_.writes:
+            for wh in all_where_clauses(st_.text):
+                conj = sorted(re.sub(r"\s*\.\s*", ".", _norm(c)) for c in split_conjuncts(wh))
+                if any(re.fullmatch(rf"(step\.)?_implied_need = {Need.TARGET.value}", c) for c in conj):
+                    stale.append(conj)
+    ctx.check(len(stale) >= 1 and all(len(c) == 1 for c in stale), rt.fq, "every step with a cached TARGET need is flagged for recomputation",
+              f"the flagging statement is narrowed to {stale}: a step elevated by a target of the previous run (e.g. an OPTIONAL producer named exactly) keeps TARGET for ever", "single conjunct _implied_need = TARGET")
+    # the two recursive flagging statements of Step.detach/reattach walk the whole product subtree: the recursion must
+    # not look at `detached` (products are already marked detached when Step.detach runs them)
+    for const in ("RECURSIVE_CHECK_WITH_PRODUCTS", "RECURSIVE_CHECK_AFTER_SOURCES"):
+        text = _norm(re.sub(r"--[^\n]*", "", ctx.prog.fold("step", const)))
+        m = re.search(r"WITH RECURSIVE (\w+)\s*\(\s*node\s*\) AS \(", text)
+        if not m:
+            raise AnalysisError(f"step.{const}: recursive CTE not found")
+        depth, k = 1, m.end()
+        while k < len(text) and depth:
+            depth += {"(": 1, ")": -1}.get(text[k], 0)
+            k += 1
+        cte = text[m.end():k - 1]
+        ctx.check("UNION ALL" in cte and "creator" in cte and not re.search(r"\bdetached\b", cte), f"step.{const}", "the recursion covers every product step, attached or not",
+                  "the recursion over product steps is filtered on `detached`: below the first level nothing is visited, so suppliers (or products) deeper in a dropped sub-plan keep stale scheduling attributes", "no detached filter in the CTE")
     ctx.check("self.db.execute('UPDATE step SET _check_after = 1 WHERE node = ?', (creator.i,))" in src and "self.db.execute(RECONCILE_TARGET_DIRS)" in src, rt.fq, "producers of exact and directory targets are flagged", "newly targeted producers are not recomputed", "flagged")
     sv = ctx.prog.func("director.serve")
     seq = [callee_name(c) for c in calls_in(sv.node) if callee_name(c) in ("reconcile_targets", "_run_tasks", "initialize_boot", "resume_from_db")]
@@ -131,6 +156,8 @@ RULES = [
 ]
 
 MUTANTS = [
+    Mutant("detached-subtree-one-level", "step.py", replace_once("        JOIN subtree ON node.creator = subtree.node\n        WHERE node.kind = 'step'\n", "        JOIN subtree ON node.creator = subtree.node\n        WHERE node.kind = 'step' AND NOT node.detached\n"), ("R-C11-2",)),
+    Mutant("stale-target-default-only", "workflow.py", in_function("Workflow.reconcile_targets", replace_once('f"UPDATE step SET _check_after = 1 WHERE _implied_need = {Need.TARGET.value}"', 'f"UPDATE step SET _check_after = 1 WHERE _implied_need = {Need.TARGET.value} AND need = {Need.DEFAULT.value}"')), ("R-C11-2",)),
     Mutant("constant-threshold", "workflow.py", in_function("Workflow.need_threshold", replace_once("return Need.DEFAULT if self.targets or self.target_dirs else Need.OPTIONAL", "return Need.OPTIONAL")), ("R-C11-1",)),
     Mutant("dispatch-declared-need", "scheduler.py", replace_once("    step._implied_need > ? AND\n", "    step.need > ? AND\n"), ("R-C11-1",)),
     Mutant("target-arm-removed", "scheduler.py", lambda t: t.replace("                  AND onode.label IN (SELECT path FROM target_path)\n            ) THEN {Need.TARGET.value}\n            WHEN", "                  AND 0\n            ) THEN {Need.TARGET.value}\n            WHEN", 1) if "AND onode.label IN (SELECT path FROM target_path)" in t else None, ("R-C11-2",)),
